@@ -1,7 +1,7 @@
 (* RUN INVARIANCE, from one regular expression (Regex/RunInv.v) to the rule list: the rule that matches and the place
    where its match ends do not depend on the length or the spelling of the white-space runs of the text, provided
    every rule is in the class (good false) or matches neither text. *)
-From SqlModel Require Import Base Re MinWidth SplitApi SplitApiFacts RunInvDefs RunInv Lexer.
+From SqlModel Require Import Base Re MinWidth SplitApi SplitApiFacts RunInvDefs RunInv Lexer SwallowDefs SwallowFacts.
 From Coq Require Import Lia.
 
 Section RunLex.
@@ -108,6 +108,82 @@ Theorem RS_respell w R R' u :
   RS (w ++ R ++ u) (w ++ R' ++ u).
 Proof.
   intros Hw HR HR' FR FR' Hu. apply RS_prefix; [exact Hw|]. apply RS_run; auto. apply RS_refl.
+Qed.
+
+
+(* ---- the matched TEXT, for rules that cannot consume a character of S ---------------------------------- *)
+Fixpoint consumes_set (r : re) : bool :=
+  match r with
+  | Eps | Ahead _ _ | Behind _ _ | Bound _ | AtEnd => false
+  | Atom s => negb (cdisjoint s S)
+  | Seq a b | Alt a b => consumes_set a || consumes_set b
+  | Rep _ _ _ r | Group _ r => consumes_set r
+  | Backref _ => true
+  end.
+
+Lemma consumes_set_sound r c : consumes_set r = false -> inS S c = true -> consumes c r = false.
+Proof.
+  intros H Hc. induction r as [| s | a IHa b IHb | a IHa b IHb | g lo hi r IH | n r IH | n | neg r IH
+                              | neg s | w | ]; cbn [consumes_set consumes] in *; try reflexivity; try discriminate; auto.
+  - destruct (cdisjoint s S) eqn:D; [|discriminate]. destruct (cmem c s) eqn:M; [|reflexivity].
+    apply (cdisjoint_sound s S D) in M. unfold inS in Hc. congruence.
+  - apply orb_false_iff in H. destruct H as [Ha Hb]. rewrite (IHa Ha), (IHb Hb). reflexivity.
+  - apply orb_false_iff in H. destruct H as [Ha Hb]. rewrite (IHa Ha), (IHb Hb). reflexivity.
+Qed.
+
+Definition strip (t : text) : text := filter (fun c => negb (inS S c)) t.
+
+Lemma strip_app a b : strip (a ++ b) = strip a ++ strip b.
+Proof. apply filter_app. Qed.
+
+Lemma RS_strip t t' : RS t t' -> strip t = strip t'.
+Proof.
+  assert (Hrun : forall R, forallb (inS S) R = true -> strip R = []).
+  { induction R as [|r R IH]; [reflexivity|]. cbn [forallb]. intros H. apply andb_true_iff in H.
+    destruct H as [Hr HR]. unfold strip. cbn [filter]. rewrite Hr. cbn [negb]. apply IH, HR. }
+  induction 1 as [| c t t' Hc _ IH | R R' t t' _ _ FR FR' _ _ _ IH]; [reflexivity | |].
+  - unfold strip in *. cbn [filter]. rewrite Hc. cbn [negb]. rewrite IH. reflexivity.
+  - rewrite !strip_app, (Hrun R FR), (Hrun R' FR'), IH. reflexivity.
+Qed.
+
+Lemma strip_free w : (forall c, In c w -> inS S c = false) -> strip w = w.
+Proof.
+  induction w as [|c w IH]; intros H; [reflexivity|]. unfold strip in *. cbn [filter].
+  rewrite (H c (or_introl eq_refl)). cbn [negb]. rewrite IH; [reflexivity|]. intros d Hd. apply H. right. exact Hd.
+Qed.
+
+(* two S-free prefixes in front of related remainders of related texts are EQUAL *)
+Lemma free_prefix_eq w w' u u' :
+  RS (w ++ u) (w' ++ u') -> RS u u' ->
+  (forall c, In c w -> inS S c = false) -> (forall c, In c w' -> inS S c = false) -> w = w'.
+Proof.
+  intros Ht Hu Hw Hw'. apply RS_strip in Ht. apply RS_strip in Hu. rewrite !strip_app in Ht.
+  rewrite (strip_free w Hw), (strip_free w' Hw'), Hu in Ht. apply app_inv_tail in Ht. exact Ht.
+Qed.
+
+Lemma after_split k x : rest x = firstn k (rest x) ++ rest (after k x).
+Proof. unfold after. cbn [rest]. symmetry. apply firstn_skipn. Qed.
+
+(* the action a is only attached to rules that cannot consume a character of S *)
+Definition action_free (rs : list rule) (a : action) : Prop :=
+  forall r, In (r, a) rs -> consumes_set r = false.
+
+Theorem first_match_value rs x x' a k k' :
+  action_free rs a -> RS (rest x) (rest x') ->
+  first_match lower rs x = Some (a, k) -> first_match lower rs x' = Some (a, k') ->
+  srel (after k x) (after k' x') ->
+  firstn k (rest x) = firstn k' (rest x').
+Proof.
+  intros Hfree Ht E E' Hafter.
+  assert (Hw : forall y j, first_match lower rs y = Some (a, j) -> forall c, In c (firstn j (rest y)) -> inS S c = false).
+  { intros y j Ey c Hin. destruct (inS S c) eqn:Hc; [|reflexivity]. exfalso.
+    destruct (first_match_clean lower c rs y a j Ey Hin) as (r & Hr & Hcons).
+    rewrite (consumes_set_sound r c (Hfree r Hr) Hc) in Hcons. discriminate. }
+  apply (free_prefix_eq _ _ (rest (after k x)) (rest (after k' x'))).
+  - rewrite <- !after_split. exact Ht.
+  - exact (proj1 Hafter).
+  - exact (Hw x k E).
+  - exact (Hw x' k' E').
 Qed.
 
 End RunLex.
